@@ -5,6 +5,7 @@ import io
 import logging
 import sys
 
+import talgen
 from talgen import build_value, Fn
 
 _drv = None
@@ -71,6 +72,8 @@ def canon_value(v, depth=0):
         return ["f", repr(v)]
     if isinstance(v, Fn):
         return ["c", v.ident]
+    if isinstance(v, talgen.IterLike):
+        return ["it", v.kind]
     if isinstance(v, (list, tuple)):
         return ["l", [canon_value(x, depth + 1) for x in v]]
     if isinstance(v, simpleTALES.RepeatVariable):
@@ -180,7 +183,8 @@ def traced_interpreter(tpl, limit=4000):
             elif op == simpleTAL.TAL_REPEAT and not had_rep:
                 rv = interp.repeatVariable
                 if rv is not None:
-                    tag = ["r", len(rv.sequence) - 1]
+                    seq = rv.sequence
+                    tag = ["r", seq.remaining() if hasattr(seq, "remaining") else len(seq) - 1]
                 elif interp.programCounter == pc + 1:
                     tag = ["r", "d"]
                 else:
@@ -293,7 +297,7 @@ def run_case(case):
             v = real_evaluate2(expr, originalAtts)
             if originalAtts is not None and len(evlog2) < 4000:
                 try:
-                    ln = len(v)
+                    ln = v.remaining() if isinstance(v, talgen.IterLike) else len(v)
                 except Exception:
                     ln = None
                 evlog2.append([ver, expr, [[k, x] for k, x in originalAtts.items()], _cval(v) + [ln]])
